@@ -181,7 +181,7 @@ func GenTree(t *rapid.T, g *Node, w0 *World, o TreeOpts) *Tree {
 		// rapid favours the ends of an integer range: the "invalid" window sits in the middle so that the
 		// percentage means what it says
 		if v := rapid.IntRange(0, 99).Draw(t, "invalid"); o.InvalidPct > 0 && v >= 40 && v < 40+o.InvalidPct {
-			kinds := []string{"bad-stateroot", "bad-receiptsroot", "bad-txroot", "extra-tx-nonce", "number-gap", "number-low"}
+			kinds := []string{"bad-stateroot", "bad-receiptsroot", "bad-txroot", "extra-tx-nonce", "number-gap", "number-low", "fork-version"}
 			if o.Forged && len(blk.GetBody().GetTxs()) > 0 {
 				kinds = append(kinds, "forged-sig", "forged-sig", "forged-chainid", "forged-chainid", "forged-sig-transplant")
 			}
@@ -242,6 +242,15 @@ func makeInvalid(t *rapid.T, g *Node, blk *types.Block, p *Produced, pstate *typ
 	case "number-low":
 		// the header claims the parent's own number or less, down to 0 (the genesis block's number)
 		bad.Header.BlockNo -= uint64(rapid.IntRange(1, int(bad.Header.BlockNo)).Draw(t, "low"))
+	case "fork-version":
+		// everything is right except that the chain id in the header carries another fork version than the one the
+		// node's hardfork schedule assigns to this height
+		cur := types.DecodeChainIdVersion(bad.Header.ChainID)
+		nv := cur + int32(rapid.SampledFrom([]int{1, -1, 2, 70}).Draw(t, "dver"))
+		if nv < 0 {
+			nv = cur + 1
+		}
+		bad.Header.ChainID = types.MakeChainId(bad.Header.ChainID, nv)
 	case "forged-sig", "forged-chainid", "forged-sig-transplant":
 		i := rapid.IntRange(0, len(bad.Body.Txs)-1).Draw(t, "forgeIdx")
 		return ForgeTx(blk, p, i, kind)
